@@ -367,7 +367,18 @@ def accept(u: U):
         parsed["ts"] = None if u.choose(2, "parse_date") == 0 else u.int("date", 0)
         return parsed["ts"]
 
-    jar = mk_jar(u, fields={"_cookies": Table(u, "cookies", lookup=lambda key, nm, d: old_cookie if old else d)},
+    class _ExpLog:
+        """the deadline table seen from update_cookies: only removals matter here (additions go through _expire_cookie)"""
+
+        def pop(self, key, default=None):
+            ev.append(("deadline.forget", key))
+            return default
+
+        def get(self, key, default=None):
+            return default
+
+    jar = mk_jar(u, fields={"_cookies": Table(u, "cookies", lookup=lambda key, nm, d: old_cookie if old else d),
+                            "_expirations": _ExpLog()},
                  methods={"_is_domain_match": dm,
                           "_expire_cookie": lambda self, when, d, p, n: ev.append(("expire", when, d, p, n)),
                           "_do_expiration": lambda self: ev.append(("sweep",)),
@@ -464,6 +475,16 @@ def accept(u: U):
                 "with no usable Max-Age the Expires attribute is consulted: 'Max-Age=abc; Expires=<a past date>' must not "
                 "yield a cookie that is kept and sent indefinitely",
                 known=[("F16d", isinstance(max_age, _MaxAge))], witness={"Set-Cookie": "n=v; Max-Age=abc; Expires=Tue, 01 Jan 1980 12:00:00 GMT"})
+    if not exps:
+        # the cookie stored now has no lifetime attribute that counts: it is a session cookie.  It REPLACES whatever was
+        # stored under its key (RFC 6265 5.3 step 11), lifetime included - a deadline left over from the cookie it
+        # replaces would delete it early
+        forgot = [e for e in ev if e[0] == "deadline.forget"]
+        u.check("C16.accept.session_cookie_forgets_old_deadline",
+                len(forgot) == 1 and And(text_eq(forgot[0][1][0], kd), text_eq(forgot[0][1][1], kp), forgot[0][1][2] is name)
+                if forgot else False,
+                "a cookie stored without a (valid) Max-Age / Expires drops the deadline recorded for the cookie it replaces",
+                known=[("F16e", True)], witness={"history": "Set-Cookie: a=1; Max-Age=10   then   Set-Cookie: a=2"})
     u.check("C16.accept.sweep_after", bool(ev) and ev[-1] == ("sweep",),
             "expired cookies (Max-Age <= 0) are swept before update_cookies returns")
 
